@@ -105,7 +105,7 @@ fn big_bigint(r: &Recipe) -> Case {
 
 pub fn case_of(r: &Recipe, lim: Limits) -> Case {
     let fmt = if r.sel[7] & 1 == 0 { Fmt::F64 } else { Fmt::F32 };
-    match pick_w(r.sel[0], &[30, 15, 15, 10, 10, 10, 10]) {
+    match pick_w(r.sel[0], &[28, 14, 14, 10, 10, 10, 10, 2, 2]) {
         0 => {
             // G-A with the long-length and extreme-exponent components turned up
             let mut r2 = r.clone();
@@ -122,7 +122,9 @@ pub fn case_of(r: &Recipe, lim: Limits) -> Case {
         3 => gen::g_c(fmt, r, lim),
         4 => gen::g_d(fmt, r),
         5 => gen::g_g(fmt, r, lim),
-        _ => big_bigint(r),
+        6 => big_bigint(r),
+        7 => gen::g_m(fmt, r),
+        _ => gen::g_n(r),
     }
 }
 
